@@ -62,11 +62,11 @@ def check_C14(tier, seed):
     if tier == "quick":
         models = [ds_model("pairs", 1, 3, A4), ds_model("hist", 2, 3, A4, ["A", "B"], ["B", "C"]),
                   ds_model("hist", 2, 3, ["A", "C", "A2", "A3"], ["C"], ["A3"]),
-                  ds_model("hist", 2, 3, ["A", "B", "C", "A2"], ["B", "A"], ["C"]),
                   ds_model("hist", 4, 3, A5, ["A", "B", "C"], ["A3"], simulate="num=40"),
                   ds_model("hist", 6, 3, A6, ["B", "A"], ["C", "D", "A2"], simulate="num=40")]
     else:
         models = [ds_model("pairs", 1, 3, A6), ds_model("pairs", 1, 4, A4), ds_model("hist", 2, 3, A5, ["A", "B"], ["B", "C"]),
+                  ds_model("hist", 2, 3, ["A", "B", "C", "A2"], ["B", "A"], ["C"]),
                   ds_model("hist", 2, 3, A6, ["C", "A2", "D"], ["A", "B2"]), ds_model("hist", 2, 3, A5, ["A", "B", "C"], ["A3"]),
                   ds_model("hist", 3, 2, ["A", "B", "A2"], ["A"], ["B"], simulate="num=1500"),
                   ds_model("hist", 10, 3, A6, ["B", "A"], ["C", "D", "A2"], simulate="num=400"),
